@@ -4,7 +4,6 @@ import (
 	"bytes"
 	"fmt"
 	"sort"
-	"math"
 	"os"
 	"strings"
 	"time"
@@ -36,9 +35,6 @@ func dbg(format string, a ...any) {
 
 func (P) Facts() []core.Fact {
 	fs := []core.Fact{
-		{Name: "minHighPriorityBits", Value: math.Float64bits(mining.MinHighPriority)},
-		{Name: "unminedHeight", Value: int64(mining.UnminedHeight)},
-		{Name: "coinbaseFlags", Value: mining.CoinbaseFlags},
 		{Name: "witnessScaleFactor", Value: int64(blockchain.WitnessScaleFactor)},
 		{Name: "maxBlockWeight", Value: int64(blockchain.MaxBlockWeight)},
 		{Name: "maxBlockSigOpsCost", Value: int64(blockchain.MaxBlockSigOpsCost)},
@@ -49,7 +45,6 @@ func (P) Facts() []core.Fact {
 		{Name: "maxCoinbaseScriptLen", Value: int64(blockchain.MaxCoinbaseScriptLen)},
 		{Name: "baseSubsidy", Value: int64(50 * btcutil.SatoshiPerBitcoin)},
 		{Name: "lockTimeThreshold", Value: int64(500000000)},
-		{Name: "regtestRelayNonStd", Value: chaincfg.RegressionNetParams.RelayNonStdTxs},
 		{Name: "maxSatoshi", Value: int64(btcutil.MaxSatoshi)},
 		{Name: "maxTimeOffsetSeconds", Value: int64(blockchain.MaxTimeOffsetSeconds)},
 		{Name: "sequenceLockTimeDisabled", Value: int64(wire.SequenceLockTimeDisabled)},
@@ -57,9 +52,6 @@ func (P) Facts() []core.Fact {
 		{Name: "sequenceLockTimeMask", Value: int64(wire.SequenceLockTimeMask)},
 		{Name: "sequenceLockTimeGranularity", Value: int64(wire.SequenceLockTimeGranularity)},
 		{Name: "maxTxInSequenceNum", Value: int64(wire.MaxTxInSequenceNum)},
-	}
-	for k, v := range mining.VerifConstsC12() {
-		fs = append(fs, core.Fact{Name: k, Value: v})
 	}
 	return fs
 }
@@ -216,7 +208,7 @@ func (s *scenario) checkFacts(w *world, ci *chainInst, bp *builtPool) string {
 	switch {
 	case best.Height+1 != s.nextH, best.MedianTime.Unix() != s.mtp,
 		(segState == blockchain.ThresholdActive) != s.seg, (csvState == blockchain.ThresholdActive) != s.csv,
-		s.cbw != want.cbw, s.cbs != want.cbs, s.halving != ci.params.SubsidyReductionInterval,
+		s.cbw != want.cbw, s.cbs != want.cbs, s.mhp != 0 && (s.mhp != want.mhp || s.bho != want.bho), s.halving != ci.params.SubsidyReductionInterval,
 		s.maturity != int32(ci.params.CoinbaseMaturity):
 		dbg("facts: height %d mtp %d seg %v csv %v cbw %d cbs %d", best.Height+1, best.MedianTime.Unix(), segState, csvState, want.cbw, want.cbs)
 		return "stale-line:facts"
@@ -422,8 +414,9 @@ func (s *scenario) observe(w *world, ci *chainInst, bp *builtPool, gen *mining.B
 
 func (s *scenario) render(tmpl *mining.BlockTemplate, sel []int64, cbv int64, weight int64,
 	feeOK, sigOK, depOK, payOK, wcOK, addrOK, ccb, updOK bool, pb string) string {
+	sel, fees, sigs := s.canonRuns(sel, tmpl.Fees, tmpl.SigOpCosts)
 	return fmt.Sprintf("ok sel=%s fees=%s sig=%s cbv=%d wc=%s w=%d chk=fee:%s,sig:%s,dep:%s,pay:%s,wc:%s,meta:%s,ccb:%s,upd:%s,pb:%s",
-		joinInts(sel), joinInts(tmpl.Fees), joinInts(tmpl.SigOpCosts), cbv, b2s(tmpl.WitnessCommitment != nil), weight,
+		joinInts(sel), joinInts(fees), joinInts(sigs), cbv, b2s(tmpl.WitnessCommitment != nil), weight,
 		b2s(feeOK), b2s(sigOK), b2s(depOK), b2s(payOK), b2s(wcOK), b2s(addrOK), b2s(ccb), b2s(updOK), pb) + s.diffObs
 }
 
@@ -569,4 +562,36 @@ func realHist(ci *chainInst) string {
 		parts = append(parts, fmt.Sprintf("%d:%08x", hdr.Timestamp.Unix(), hdr.Bits))
 	}
 	return strings.Join(parts, ",")
+}
+
+// canonRuns brings the rendered selection into a canonical order: the order
+// among transactions whose queue keys (priority, fee rate) are genuinely equal
+// is an internal matter of the priority queue, so every maximal run of
+// consecutive selected transactions with identical keys is sorted by pool
+// index (fees and sigop costs move with their transaction; entry 0 is the
+// coinbase's).  With distinct keys this is the identity.
+func (s *scenario) canonRuns(sel []int64, fees, sigs []int64) ([]int64, []int64, []int64) {
+	n := len(sel)
+	if len(fees) != n+1 || len(sigs) != n+1 {
+		return sel, fees, sigs
+	}
+	osel := append([]int64{}, sel...)
+	ofees := append([]int64{}, fees...)
+	osigs := append([]int64{}, sigs...)
+	for i := 0; i < n; {
+		j := i + 1
+		for j < n && s.txs[sel[j]].prio == s.txs[sel[i]].prio && s.txs[sel[j]].fpk == s.txs[sel[i]].fpk {
+			j++
+		}
+		idx := make([]int, 0, j-i)
+		for k := i; k < j; k++ {
+			idx = append(idx, k)
+		}
+		sort.Slice(idx, func(a, b int) bool { return sel[idx[a]] < sel[idx[b]] })
+		for k, src := range idx {
+			osel[i+k], ofees[i+k+1], osigs[i+k+1] = sel[src], fees[src+1], sigs[src+1]
+		}
+		i = j
+	}
+	return osel, ofees, osigs
 }
